@@ -12,7 +12,7 @@ import z3
 from values import *
 import engine
 from engine import explore, model_bytes
-from props.common import Result, run_replay, hexs, unhex
+from props.common import guarded, Undecided, Result, run_replay, hexs, unhex
 from props.c20 import tag_value
 from oracles import mpd_tokenizer as T
 from models_core import explode
@@ -495,13 +495,15 @@ def run_instance(payload):
         wire = list(raw.fields[0].b)
         I._p = p
         return exp, wire
-    for pr in explore(P, harness):
+    for pr in explore(P, guarded(harness)):
         res.paths += 1
         ctx = pr.ctx
         I = pr.interp
         def rec(*extra):
             m = ctx.model(*extra)
             return {'cmd': name, 'params': [f(m) for f in I._p.rust]}
+        if isinstance(pr.value, Undecided):
+            res.undecided_path(pr, replay, rec); continue
         if pr.kind == 'panic':
             res.violations.append({'what': 'building the command panics: ' + pr.error.msg[:100], 'input': rec()}); continue
         exp, wire = pr.value
@@ -539,7 +541,7 @@ def run_instance(payload):
             res.samples.append({'cmd': name, 'params': [f(m) for f in I._p.rust], 'request': render_wire(m, wire)})
         res.take_stats(ctx.stats); ctx.stats.__init__()
     res.wall_s = time.time() - t0
-    return res.to_dict()
+    return res.finish()
 
 def render_wire(m, wire):
     out = bytearray()
